@@ -4,7 +4,7 @@ tier=${1:-quick}
 cd /verif
 for p in $(python3 -c "import json;print(' '.join(c['property_id'] for c in json.load(open('MANIFEST.json'))['checks']))"); do
   s=$(date +%s)
-  out=$(timeout 900 python3-vt checks/check.py $p --tier $tier 2>&1); rc=$?
+  out=$(timeout ${RUNALL_TIMEOUT:-900} python3-vt checks/check.py $p --tier $tier 2>&1); rc=$?
   e=$(date +%s)
   echo "$p exit=$rc $((e-s))s $(echo "$out" | grep -E '^\[' | head -1)"
   echo "$out" | grep -E "VIOLATION|CHECKER-ERROR|UNDECIDED|DEGRADED" | head -5
